@@ -78,12 +78,7 @@ def run(eng, R):
         R.ob("H-gof", "CostFunction.goodness_of_fit:indices", common.like_any(src, IDX), (f.file, f.lineno), "data/model positions must be looked up by the cost function's own data/model names")
         s0 = common.Src(str(src))
         R.ob("H-gof", "CostFunction.goodness_of_fit:cost", s0.like("_c = self(*_a)"), (f.file, f.lineno), "the cost term of the gof must be the full cost (constraints included)")
-        cost_name = s0._binding.get("_c", "_cost")
-        g = eng.cfg(f)
-        costs = [n for n in g.stmt_nodes() if n.kind == "stmt" and isinstance(n.stmt, ast.Assign) and ast.unparse(n.stmt.targets[0]) == cost_name]
-        zero = [n for n in g.nodes if n.kind == "test" and isinstance(n.stmt, ast.If) and self_attr(n.stmt.test) == "_add_determinant_cost"
-                and any(isinstance(a, ast.Assign) and "args[:-1] + (0.0,)" in ast.unparse(a) for a in n.stmt.body)]
-        ok = bool(costs) and bool(zero) and all(g.dominated_by(c.id, lambda m: m.id in {z.id for z in zero})[0] for c in costs)
+        ok = common.zeroed_determinant(eng.cnode(f))
         R.ob("H-gof", "CostFunction.goodness_of_fit:zero determinant", ok, (f.file, f.lineno), "the goodness of fit must be independent of the determinant term: the determinant argument is replaced by 0.0 before the cost is evaluated")
         ga = get_func(p, "CostFunction_GaussApproximation", "goodness_of_fit")
         g = eng.cfg(ga)
